@@ -176,7 +176,7 @@ Proof. induction l as [|x l IH]; [reflexivity|]. cbn [flat_map]. rewrite scores_
 Lemma flat_map_repeat {A} (f : A -> Z) m l : flat_map (fun b => repeat (f b) m) l = replicate m (map f l).
 Proof. unfold replicate. induction l as [|x l IH]; [reflexivity|]. cbn [flat_map map]. rewrite IH. reflexivity. Qed.
 
-(* multiplicity of an ordered pair among the rows of one batch (1, 2 or 4 in practice) *)
+(* multiplicity of an ordered pair among the rows of one batch (1, or 2 for a self pair, whose mirror is itself) *)
 Definition mult (header : list str) (keys : list (str * str)) (k : key) : nat :=
   length (filter (fun xy => key_eqb (kx header xy) k) keys).
 
